@@ -40,6 +40,10 @@ type NotifyScenario struct {
 	ViewA, ViewB   map[uint64]uint64
 	Ops            []NotifyOp
 	Cancel         bool
+	// CancelFirstOnly: the canceller cancels the context of waiter 0 only; waiter 1 waits without a
+	// deadline.  Such runs are decided by the oracle alone (the LTS of the model has one shared
+	// cancellation flag).
+	CancelFirstOnly bool
 }
 
 type NotifyCase struct {
@@ -102,8 +106,12 @@ func ExploreNotify(newWorld func(sc NotifyScenario) NotifyWorld, initData string
 		resA, resB = nil, nil
 		waiter := func(idx, calls int, res *[]notifyRes) func() string {
 			return func() string {
+				wctx := ctx
+				if sc.CancelFirstOnly && idx == 1 {
+					wctx = context.Background()
+				}
 				for i := 0; i < calls; i++ {
-					upd, ok := world.Wait(ctx, idx)
+					upd, ok := world.Wait(wctx, idx)
 					sort.Slice(upd, func(i, j int) bool { return upd[i] < upd[j] })
 					*res = append(*res, notifyRes{upd, ok})
 					if !ok {
@@ -123,7 +131,7 @@ func ExploreNotify(newWorld func(sc NotifyScenario) NotifyWorld, initData string
 			}
 			return ""
 		})
-		if sc.Cancel {
+		if sc.Cancel || sc.CancelFirstOnly {
 			c.Spawn("99", func() string { cancel(); return "" })
 		}
 		return func(r *Run) { _ = cancel }
@@ -156,8 +164,11 @@ func ExploreNotify(newWorld func(sc NotifyScenario) NotifyWorld, initData string
 			c.Note = fmt.Sprintf("%s: schedule %v ends with %d thread(s) waiting for a held mutex", what, r.Sched, lockWait)
 		}
 		cancelled := ctx.Err() != nil
-		if c.OK && !cancelled {
+		if c.OK && (!cancelled || sc.CancelFirstOnly) {
 			for _, st := range r.Final {
+				if cancelled && st.Name == "0" {
+					continue // waiter 0 was cancelled: handled below
+				}
 				if st.State == "blocked" && st.Kind == "select" && (st.Name == "0" || st.Name == "1") {
 					idx := 0
 					if st.Name == "1" {
@@ -172,6 +183,9 @@ func ExploreNotify(newWorld func(sc NotifyScenario) NotifyWorld, initData string
 		}
 		if c.OK && cancelled {
 			for _, st := range r.Final {
+				if sc.CancelFirstOnly && st.Name == "1" {
+					continue
+				}
 				if st.State == "blocked" && (st.Name == "0" || st.Name == "1") {
 					c.OK, c.Sig = false, "cancelled wait does not return"
 					c.Note = fmt.Sprintf("%s: waiter %s still blocked after cancellation; schedule %v", what, st.Name, r.Sched)
@@ -190,6 +204,9 @@ func ExploreNotify(newWorld func(sc NotifyScenario) NotifyWorld, initData string
 		}
 		c.Coq = fmt.Sprintf("CNotify %s %d %s %d %s %s %s %s %s %s %s %s %s", initData, sc.CallsA, coqView(sc.ViewA), sc.CallsB, coqView(sc.ViewB),
 			b(keep), b(two), "["+strings.Join(ops, "; ")+"]", b(sc.Cancel), "["+strings.Join(sched, "; ")+"]", "["+strings.Join(obs, "; ")+"]", coqRes(resA), coqRes(resB))
+		if sc.CancelFirstOnly {
+			c.Coq = fmt.Sprintf("CNotifyOracleOnly %d", len(r.Sched))
+		}
 		for i := 1; i < len(r.Sched); i++ {
 			if r.Sched[i] != r.Sched[i-1] {
 				c.Preempt = true
